@@ -12,6 +12,7 @@ import (
 	"time"
 
 	"github.com/moorara/algo/automata"
+	"github.com/moorara/algo/set"
 
 	"verifharness/hx"
 )
@@ -26,7 +27,9 @@ const Rule = "cases = little programs over named automata drawn from VERIF_SEED:
 	"state, or Minimize merged states, or a renaming was not the identity, or it is an aliasing case (operands are " +
 	"mutated with Add after an operation and the earlier results re-checked on all words and re-dumped, then the " +
 	"results are mutated and the operands re-checked); alphabets with gaps ({a,c}, {b,x}, {1,b}), mostly partial " +
-	"DFAs, state ids mostly with gaps; distinct = distinct (header, op list)"
+	"DFAs, state ids mostly with gaps and sometimes negative (never -1), alphabets of two or three symbols; cases " +
+	"that assign the exported Start/Final fields directly (Final as a sorted, an insertion-ordered or an unordered " +
+	"set; with an unordered set only languages, not structures, are compared); distinct = distinct (header, op list)"
 
 // ---------------------------------------------------------------- words and languages
 
@@ -445,6 +448,9 @@ func Exec(c hx.Case) hx.Result {
 		}
 	}
 	ws := mkWords(sigma, k)
+	quiet := hx.HeaderGet(c.Header, "quiet") != ""
+	quietOps := map[string]bool{"dump": true, "todfa": true, "tonfa": true, "star": true, "union": true, "concat": true,
+		"min": true, "elim": true, "reidx": true, "clone": true, "rename": true, "combine": true}
 	tags := map[string]bool{}
 	nontrivial := false
 	regs := map[string]*reg{}
@@ -557,6 +563,68 @@ func Exec(c hx.Case) hx.Result {
 					} else {
 						r.lang = nil
 					}
+					out = "ok"
+				case "setstart":
+					// direct assignment of the exported Start field
+					if len(f) != 3 || regs[f[1]] == nil {
+						return
+					}
+					v, err := strconv.Atoi(f[2])
+					if err != nil {
+						return
+					}
+					r := regs[f[1]]
+					if r.n != nil {
+						r.n.Start = automata.State(v)
+					} else {
+						r.d.Start = automata.State(v)
+					}
+					if r.raw != nil {
+						r.raw.start = v
+						r.lang = r.raw.language(ws)
+					} else {
+						r.lang = nil
+					}
+					tags["direct-start"] = true
+					nontrivial = true
+					out = "ok"
+				case "setfinal":
+					// direct assignment of the exported Final field: a sorted, an insertion-ordered or an unordered set
+					if len(f) != 4 || regs[f[1]] == nil {
+						return
+					}
+					fs, ok := parseList(f[3])
+					if !ok {
+						return
+					}
+					var st automata.States
+					switch f[2] {
+					case "sorted":
+						st = automata.NewStates(states(fs)...)
+					case "stable":
+						st = set.NewStable(automata.EqState, states(fs)...)
+					case "unordered":
+						st = set.New(automata.EqState, states(fs)...)
+					default:
+						return
+					}
+					r := regs[f[1]]
+					if r.n != nil {
+						r.n.Final = st
+					} else {
+						r.d.Final = st
+					}
+					if r.raw != nil {
+						r.raw.final = map[int]bool{}
+						for _, x := range fs {
+							r.raw.final[x] = true
+						}
+						r.lang = r.raw.language(ws)
+					} else {
+						r.lang = nil
+					}
+					tags["direct-final-"+f[2]] = true
+					nontrivial = true
 					out = "ok"
 				case "dump":
 					if len(f) != 2 || regs[f[1]] == nil {
@@ -955,6 +1023,9 @@ func Exec(c hx.Case) hx.Result {
 			tags["panic"] = true
 			break
 		}
+		if quiet && len(f) > 0 && quietOps[f[0]] && strings.HasPrefix(out, "ok ") {
+			out = "ok" // the structure depends on the iteration order of an unordered Final set: only languages are compared
+		}
 		res.Outs = append(res.Outs, out)
 	}
 	if hx.HeaderGet(c.Header, "alias") != "" {
@@ -984,7 +1055,18 @@ func joinInts(xs []int) string {
 
 // ids draws n distinct state ids from a non-contiguous range
 func ids(r *hx.Rand, n int) []int {
-	switch r.Intn(6) {
+	switch r.Intn(7) {
+	case 6: // negative ids as well (never -1, the "invalid state")
+		seen := map[int]bool{}
+		var xs []int
+		for len(xs) < n {
+			v := r.Range(-7, 9)
+			if v != -1 && !seen[v] {
+				seen[v] = true
+				xs = append(xs, v)
+			}
+		}
+		return xs
 	case 0: // 0..n-1
 		xs := make([]int, n)
 		for i := range xs {
@@ -1028,9 +1110,9 @@ func genNFA(r *hx.Rand, x string, maxStates int, sigma []int) []string {
 	ops := []string{fmt.Sprintf("nfa %s %d %s", x, st[0], joinInts(fin))}
 	edges := r.Range(0, 2*n+1)
 	for e := 0; e < edges; e++ {
-		a := []int{sigma[0], sigma[1], 0}[r.Intn(3)]
-		if r.Chance(1, 2) {
-			a = sigma[r.Intn(2)]
+		a := hx.Pick(r, sigma)
+		if r.Chance(1, 6) {
+			a = 0
 		}
 		k := 1
 		if r.Chance(1, 4) {
@@ -1061,7 +1143,17 @@ func genDFA(r *hx.Rand, x string, maxStates int, sigma []int) []string {
 	if len(fin) == 0 && r.Chance(4, 5) {
 		fin = append(fin, hx.Pick(r, st))
 	}
+	shape := r.Intn(12)
+	if shape < 2 { // every state accepting: the initial partition of Minimize has an empty group
+		fin = append([]int{}, st...)
+	}
 	ops := []string{fmt.Sprintf("dfa %s %d %s", x, st[0], joinInts(fin))}
+	if shape == 2 { // no transition at all, the start state accepting or not
+		if r.Chance(3, 4) {
+			ops[0] = fmt.Sprintf("dfa %s %d %d", x, st[0], st[0])
+		}
+		return ops
+	}
 	total := r.Chance(1, 4) // mostly partial DFAs
 	density := r.Range(1, 3)
 	for _, s := range st {
@@ -1101,6 +1193,14 @@ func renaming(r *hx.Rand, st []int) string {
 		d := r.Range(1, 9)
 		for i := range target {
 			target[i] = st[i] + d
+		}
+	}
+	for i := range target {
+		if target[i] == -1 { // -1 is not a state id
+			for j := range target {
+				target[j] += 50
+			}
+			break
 		}
 	}
 	ps := make([]string, len(st))
@@ -1171,8 +1271,12 @@ func genCase(r *hx.Rand) hx.Case {
 		maxN = 5
 	}
 	// the alphabet: contiguous or with gaps (the words of `acc` are over exactly these symbols)
-	sigma := [][]int{{97, 98}, {97, 99}, {98, 120}, {1, 98}}[r.Intn(4)]
-	kind := r.Intn(7)
+	sigma := [][]int{{97, 98}, {97, 99}, {98, 120}, {1, 98}, {97, 98, 99}, {97, 100, 120}}[r.Intn(6)]
+	kw := 5
+	if len(sigma) > 2 {
+		kw = 4 // 121 words
+	}
+	kind := r.Intn(9)
 	switch kind {
 	case 0, 1: // NFA pipeline
 		a := genNFA(r, "A", maxN, sigma)
@@ -1220,6 +1324,36 @@ func genCase(r *hx.Rand) hx.Case {
 			scribble(r, "S", []int{0, 1, 2}, sigma, false), scribble(r, "D", []int{0, 1}, sigma, true),
 			scribble(r, "K", sa, sigma, false), scribble(r, "N", []int{0, 1}, sigma, false))
 		ops = append(ops, "acc A", "acc B", "dump A", "dump B", "acc D", "dump D", "equal K A")
+	case 7, 8: // direct assignment of the exported Start / Final fields
+		kindF := "stable"
+		if kind == 8 {
+			kindF = "unordered" // iteration order is shuffled: only languages are compared (quiet=1)
+		} else if r.Chance(1, 3) {
+			kindF = "sorted"
+		}
+		a := genNFA(r, "A", maxN, sigma)
+		b := genDFA(r, "B", maxN, sigma)
+		sa, sb := statesOfOps(a), statesOfOps(b)
+		pickSome := func(st []int) []int {
+			var out []int
+			for _, x := range st {
+				if r.Chance(1, 2) {
+					out = append(out, x)
+				}
+			}
+			for i := len(out) - 1; i > 0; i-- { // not in ascending order
+				j := r.Intn(i + 1)
+				out[i], out[j] = out[j], out[i]
+			}
+			return out
+		}
+		ops = append(ops, a...)
+		ops = append(ops, b...)
+		ops = append(ops, fmt.Sprintf("setfinal A %s %s", kindF, joinInts(pickSome(sa))), fmt.Sprintf("setstart A %d", hx.Pick(r, sa)))
+		ops = append(ops, fmt.Sprintf("setfinal B %s %s", kindF, joinInts(pickSome(sb))), fmt.Sprintf("setstart B %d", hx.Pick(r, sb)))
+		ops = append(ops, "acc A", "acc B", "star S A", "acc S", "union U A A", "acc U", "concat C A A", "acc C", "todfa D A", "acc D", "clone K A", "acc K", "equal K A",
+			"min M B", "acc M", "elim L B", "acc L", "reidx R B", "acc R", "tonfa N B", "acc N", "clone KB B", "acc KB", "combine X B B", "acc X",
+			"rename Q A "+renaming(r, sa), "iso A Q", "rename QB B "+renaming(r, sb), "iso B QB", "min MD D", "acc MD")
 	default: // aliasing, DFA side
 		a := genDFA(r, "A", maxN, sigma)
 		b := genDFA(r, "B", maxN, sigma)
@@ -1234,10 +1368,13 @@ func genCase(r *hx.Rand) hx.Case {
 			scribble(r, "K", sa, sigma, true), scribble(r, "N", sa, sigma, false), scribble(r, "X", []int{0, 1, 2}, sigma, true))
 		ops = append(ops, "acc A", "acc B", "dump A", "dump B", "min M2 A", "equal K A")
 	}
-	if kind >= 5 {
+	if kind == 5 || kind == 6 {
 		return hx.Case{Header: fmt.Sprintf("comp=automata k=4 sig=%s alias=1", joinInts(sigma)), Ops: ops}
 	}
-	return hx.Case{Header: fmt.Sprintf("comp=automata k=5 sig=%s", joinInts(sigma)), Ops: ops}
+	if kind == 8 {
+		return hx.Case{Header: fmt.Sprintf("comp=automata k=4 sig=%s quiet=1", joinInts(sigma)), Ops: ops}
+	}
+	return hx.Case{Header: fmt.Sprintf("comp=automata k=%d sig=%s", kw, joinInts(sigma)), Ops: ops}
 }
 
 // exhaustive2 enumerates every NFA with states {p,q} over {a,b,eps}
